@@ -167,6 +167,52 @@ def multi_letters(w):
     return out
 
 
+def pair_letters(w, w0, exhaustive=False):
+    """Grouped updates [quantity change, link/list change]. Quick: pairs whose two objects are related (same object,
+    or one references the other directly); thorough: every pair of the core alphabet."""
+    nums = [e for e in core_numeric(w, w0)]
+    structural = H.link_letters(w) + H.list_letters(w, allow_empty=False)
+    out = []
+
+    def refs(n):
+        r = set()
+        for v in w["objects"][n]["attrs"].values():
+            if v[0] == "link":
+                r.add(v[1])
+            elif v[0] == "list":
+                r.update(v[1])
+        return r
+    seen = set()
+    for n_ in nums:
+        for l_ in structural:
+            a, b = n_[1], l_[1]
+            related = a == b or a in refs(b) or b in refs(a)
+            if not (exhaustive or related):
+                continue
+            if not exhaustive:
+                k = (w["objects"][a]["cls"], n_[2], w["objects"][b]["cls"], l_[2], l_[0])
+                if k in seen:
+                    continue
+                seen.add(k)
+            out.append(["multi", [n_, l_]])
+    return out
+
+
+def core_numeric(w, w0):
+    keep_attrs = {"user_time_spent", "request_duration", "data_stored", "data_transferred", "ram_needed",
+                  "hourly_usage_journey_starts", "server_type", "average_carbon_intensity", "timezone",
+                  "bandwidth_energy_intensity", "data_storage_duration", "base_storage_need", "power"}
+    nums = [e for e in H.numeric_letters(w, w0, specials=True) if e[2] in keep_attrs]
+    seen, red = set(), []
+    for e in nums:
+        k = (e[1], e[2])
+        orig = w0["objects"][e[1]]["attrs"].get(e[2])
+        if k not in seen or e[3] == orig:
+            red.append(e)
+            seen.add(k)
+    return red
+
+
 def lop_letters(w):
     """A few in-place list mutators (the full set is C16's business; here they are edits like any other)."""
     out = []
@@ -188,24 +234,17 @@ def lop_letters(w):
 
 
 def full_alphabet(w, w0):
-    return (H.numeric_letters(w, w0) + H.link_letters(w) + H.list_letters(w) + lop_letters(w) + multi_letters(w))
+    return (H.numeric_letters(w, w0) + H.link_letters(w) + H.list_letters(w) + lop_letters(w) + multi_letters(w)
+            + pair_letters(w, w0))
+
+
+def pairs_alphabet(w, w0):
+    return pair_letters(w, w0, exhaustive=True)
 
 
 def core_alphabet(w, w0):
     """Link/list letters + the numeric letters that share descendants with them."""
-    keep_attrs = {"user_time_spent", "request_duration", "data_stored", "data_transferred", "ram_needed",
-                  "hourly_usage_journey_starts", "server_type", "average_carbon_intensity", "timezone",
-                  "bandwidth_energy_intensity", "data_storage_duration", "base_storage_need", "power"}
-    nums = [e for e in H.numeric_letters(w, w0, specials=True) if e[2] in keep_attrs]
-    # one alternative per attribute (+ the original value when changed)
-    seen, red = set(), []
-    for e in nums:
-        k = (e[1], e[2])
-        orig = w0["objects"][e[1]]["attrs"].get(e[2])
-        if k not in seen or e[3] == orig:
-            red.append(e)
-            seen.add(k)
-    return red + H.link_letters(w) + H.list_letters(w) + multi_letters(w)
+    return core_numeric(w, w0) + H.link_letters(w) + H.list_letters(w) + multi_letters(w)
 
 
 def make_alphabet(fam, mode_by_depth):
@@ -214,6 +253,8 @@ def make_alphabet(fam, mode_by_depth):
     def alphabet_of(node, info, depth):
         w = H.fold_spec(W.family(fam), node["history"])
         mode = mode_by_depth.get(depth, "core")
+        if mode == "pairs":
+            return pairs_alphabet(w, w0)
         return full_alphabet(w, w0) if mode == "full" else core_alphabet(w, w0)
     return alphabet_of
 
